@@ -1652,11 +1652,6 @@ static void do_source_file(const char *filename_in,
          exit(EX_IOERR);
       }
 
-      if (need_backup)
-      {
-         backup_create_md5_file(filename_in);
-      }
-
       if (filename_tmp != filename_out)
       {
          // We need to compare and then do a rename (but avoid redundant test when if_changed set)
@@ -1685,6 +1680,12 @@ static void do_source_file(const char *filename_in,
                exit(EX_IOERR);
             }
          }
+      }
+
+      // the md5 must describe what is in the file now, so take it after the rename
+      if (need_backup)
+      {
+         backup_create_md5_file(filename_in);
       }
 
       if (keep_mtime)
